@@ -30,9 +30,13 @@
 (* order in which alerts arrived, were refreshed or resolved.              *)
 (*                                                                         *)
 (* An alert is named (AlertLS gives its label set; the name stands for the *)
-(* fingerprint).  A rule is a record [src, tgt, eq]: two matcher lists     *)
-(* (AND, Labels!MatchesAll) and the set of equal label names.  A rule set  *)
-(* is a sequence of rules; rs names the configured one.                    *)
+(* fingerprint).  A rule is a record [name, src, tgt, eq]: the optional    *)
+(* name ("" = absent), two matcher lists (AND, Labels!MatchesAll) and the  *)
+(* set of equal label names.  A rule set is a sequence of rules (the       *)
+(* inhibit_rules list of the configuration file); rs names the configured  *)
+(* one.  The statement gives rule names no meaning: neither layer reads    *)
+(* .name (NameBlind below), and two rules may carry the same name - with   *)
+(* different or with identical matchers - and both are rules of the set.   *)
 (***************************************************************************)
 EXTENDS Labels
 
@@ -53,7 +57,15 @@ VARIABLES now,       \* clock
 vars == <<now, rs, prov, queue, scache, sindex, last>>
 
 None == ""
-Rules == RuleSets[rs]
+
+(* inhibit.NewInhibitor: the configured rules are taken in file order.  A  *)
+(* non-empty name already used by an earlier rule is only logged (Debug    *)
+(* "duplicate inhibition rule name"); the rule is appended like any other. *)
+DupName(R, i) == R[i].name # "" /\ \E j \in 1 .. i - 1 : R[j].name = R[i].name
+Loaded(R) == R         \* every rule, position preserved (no SelectSeq over ~DupName)
+Unnamed(R) == [i \in DOMAIN R |-> [R[i] EXCEPT !.name = ""]]
+
+Rules == Loaded(RuleSets[rs])
 NR == Len(Rules)
 RuleIdx == 1 .. NR
 
@@ -153,8 +165,9 @@ QualifyingAt(R, p, t, ls) ==
 
 RefSources(r, ls)       == RefSourcesAt(prov, now, r, ls)
 InhibitedRefRule(r, ls) == InhibitedRefRuleAt(prov, now, r, ls)
-InhibitedRef(ls)        == InhibitedRefAt(Rules, prov, now, ls)
-Qualifying(ls)          == QualifyingAt(Rules, prov, now, ls)
+\* the reference ranges over the rules of the configuration file, not over what the inhibitor loaded
+InhibitedRef(ls)        == InhibitedRefAt(RuleSets[rs], prov, now, ls)
+Qualifying(ls)          == QualifyingAt(RuleSets[rs], prov, now, ls)
 
 -----------------------------------------------------------------------------
 Init == /\ now = 0
@@ -277,6 +290,13 @@ CacheComplete == Quiet => \A i \in RuleIdx :
          (a \in DOMAIN scache[i] /\ scache[i][a] = prov[a].end)
    /\ \A a \in DOMAIN scache[i] : scache[i][a] > now =>
          (a \in DOMAIN prov /\ prov[a].end = scache[i][a])
+
+\* rule names carry no meaning: both layers give the verdict of the same rules without names
+NameBlind(Q) == \A q \in Q :
+   /\ InhibitedRefAt(Unnamed(RuleSets[rs]), prov, now, AlertLS[q]) = InhibitedRefAt(RuleSets[rs], prov, now, AlertLS[q])
+   /\ MutesImplAt(Unnamed(Rules), scache, sindex, now, AlertLS[q]) = MutesImpl(AlertLS[q])
+\* ... and the reference ranges over every rule of the file, the implementation over the loaded ones
+AllLoaded == Len(Rules) = Len(RuleSets[rs])
 
 (* Why a rule that inhibits by the reference does not inhibit in the       *)
 (* implementation.  Exhaustive case split over findEqualSourceAlert /      *)
